@@ -58,7 +58,15 @@ fn gen_seq(r: &mut Rng, depth: usize, out: &mut String, groups: &mut usize, maxd
             out.push('}');
         } else {
             if r.chance(1, 12) {
-                out.push_str(ODD_LITS[r.below(ODD_LITS.len())]);
+                let lits: Vec<&'static str> = crate::corpus::literal_strs(&["pattern", "dewey", "pkgname"])
+                    .into_iter()
+                    .filter(|s| !s.is_empty() && s.len() <= 12 && !s.contains(|c| matches!(c, '{' | '}' | ',' | '\n')))
+                    .collect();
+                if !lits.is_empty() && r.chance(1, 3) {
+                    out.push_str(lits[r.below(lits.len())]);
+                } else {
+                    out.push_str(ODD_LITS[r.below(ODD_LITS.len())]);
+                }
             } else {
                 out.push_str(LITS[r.below(LITS.len())]);
             }
